@@ -657,6 +657,47 @@ fn c17_builder(s: &mut Sink, g: &mut u64) {
     if !s.expired() {
         s.done("builder constructors x fields; builder vs encoder vs assembler; every ordered pair of constructors (a, b, a) on one BpfCode");
     }
+    // all encoders agree on whole programs too: every sequence of 1..=4 instructions over two wide
+    // loads, a move, a jump and exit, assembled, against the concatenation of rbpf's own Insn::to_array
+    let idx = *g;
+    *g += 1;
+    if s.take(idx) {
+        let atoms: Vec<(&str, Vec<I>)> = vec![
+            ("lddw r1, 0x1122334455667788", isa::lddw(1, 0x1122334455667788).to_vec()),
+            ("lddw r2, 0xffffffff80000001", isa::lddw(2, 0xffffffff80000001).to_vec()),
+            ("mov64 r3, 7", vec![isa::mov64i(3, 7)]),
+            ("ja +1", vec![isa::ja(1)]),
+            ("exit", vec![isa::EXIT]),
+        ];
+        let mut n = 0u64;
+        let mut stack: Vec<Vec<usize>> = (0..atoms.len()).map(|a| vec![a]).collect();
+        for _len in 1..=4 {
+            let mut next = vec![];
+            for sq in &stack {
+                let text: String = sq.iter().map(|k| atoms[*k].0).collect::<Vec<_>>().join("\n");
+                let mut want: Vec<u8> = vec![];
+                for k in sq {
+                    for i in &atoms[*k].1 {
+                        want.extend_from_slice(&rbpf::ebpf::Insn { opc: i.opc, dst: i.dst, src: i.src, off: i.off, imm: i.imm }.to_array());
+                    }
+                }
+                n += 1;
+                match catch(|| rbpf::assembler::assemble(&text)) {
+                    Ok(Ok(b)) if b == want => {}
+                    other => s.violation("ebpf/program/assembler-differs-from-encoder", format!("assemble({text:?}) = {:?}, Insn::to_array gives {}", other.map(|r| r.map(|b| hex(&b))), hex(&want)), json!({"kind":"asm","text":text,"want":hex(&want)})),
+                }
+                for a in 0..atoms.len() {
+                    let mut x = sq.clone();
+                    x.push(a);
+                    next.push(x);
+                }
+            }
+            stack = next;
+        }
+        s.count("evaluations", n);
+        s.count("distinct_nontrivial", n);
+        s.done("assembler vs Insn::to_array on every program of 1..=4 instructions over two wide loads, a move, a jump, exit");
+    }
 }
 
 pub fn replay_c17(v: &Value) -> Vec<String> {
@@ -1188,6 +1229,71 @@ fn c15_print_cases(cases: &[(usize, usize)]) -> Vec<u8> {
         }
     }
     out.into_bytes()
+}
+
+/// C16 through the printing entry point: what `disassemble()` prints for a program, assembled
+/// again, must be the program (sizes around the multiples of 512 slots and a few others; the wide
+/// load sits at the end, so that it straddles any fixed-size block boundary for some size).
+fn c16_print_roundtrip(s: &mut Sink, thorough: bool) {
+    let mut sizes: Vec<usize> = vec![3, 4, 17, 100];
+    for base in [512usize, 1024, 1536, 2048, 4096] {
+        if base > 1100 && !thorough {
+            continue;
+        }
+        sizes.extend(base - 4..=base + 6);
+    }
+    let cases: Vec<(usize, usize)> = sizes.iter().flat_map(|n| [(*n, n - 3), (*n, 0)]).collect();
+    for chunk in cases.chunks(32) {
+        let c2 = chunk.to_vec();
+        let end = in_child(120, move || {
+            use std::io::Write;
+            let mut out = String::new();
+            unsafe {
+                let fd = libc::memfd_create(b"verif-stdout\0".as_ptr() as *const libc::c_char, 0);
+                let _ = std::io::stdout().flush();
+                libc::dup2(fd, 1);
+                for (slots, at) in &c2 {
+                    let bytes = isa::enc(&c15_print_program(*slots, *at));
+                    libc::ftruncate(fd, 0);
+                    libc::lseek(fd, 0, libc::SEEK_SET);
+                    if let Err(m) = catch(|| rbpf::disassembler::disassemble(&bytes)) {
+                        out.push_str(&format!("{slots} {at} P {}\n", m.replace('\n', " ")));
+                        continue;
+                    }
+                    let _ = std::io::stdout().flush();
+                    let len = libc::lseek(fd, 0, libc::SEEK_END) as usize;
+                    let mut buf = vec![0u8; len];
+                    libc::pread(fd, buf.as_mut_ptr() as *mut libc::c_void, len, 0);
+                    let text = String::from_utf8_lossy(&buf).to_string();
+                    match catch(|| rbpf::assembler::assemble(&text)) {
+                        Ok(Ok(b)) if b == bytes => {}
+                        Ok(Ok(b)) => out.push_str(&format!("{slots} {at} D assembling the printed text gives {} bytes, the program has {}\n", b.len(), bytes.len())),
+                        Ok(Err(e)) => out.push_str(&format!("{slots} {at} D the printed text is refused: {}\n", e.replace('\n', " "))),
+                        Err(m) => out.push_str(&format!("{slots} {at} P assemble panicked: {}\n", m.replace('\n', " "))),
+                    }
+                }
+            }
+            out.into_bytes()
+        });
+        s.count("evaluations", chunk.len() as u64);
+        s.count("distinct_nontrivial", chunk.len() as u64);
+        match end {
+            ChildEnd::Ok(b) => {
+                for line in String::from_utf8_lossy(&b).lines() {
+                    let mut it = line.splitn(4, ' ');
+                    let slots: usize = it.next().unwrap().parse().unwrap();
+                    let at: usize = it.next().unwrap().parse().unwrap();
+                    let kind = it.next().unwrap();
+                    let rest = it.next().unwrap_or("");
+                    let sig = if kind == "P" { format!("roundtrip/disassemble()/{}", panic_class(rest)) } else { "roundtrip/disassemble()/bytes-differ".to_string() };
+                    s.violation(&sig, format!("{slots}-slot program with a wide load at slot {at}: {rest}"), json!({"kind":"disasm-print","slots":slots,"at":at}));
+                }
+            }
+            ChildEnd::Signal(sig) => s.violation(&format!("roundtrip/disassemble()/crash:{}", signame(sig)), "disassemble() + assemble() died".into(), json!({"kind":"none"})),
+            ChildEnd::Exit(c) => s.violation("harness/roundtrip-print/child-exit", format!("child exit {c}"), json!({"kind":"none"})),
+        }
+    }
+    s.done("disassemble() (printed text) -> assemble() on programs of sizes around 512, 1024 (thorough: .. 4096) slots");
 }
 
 fn c15_print_family(s: &mut Sink, thorough: bool) {
@@ -2358,6 +2464,9 @@ pub fn run_c16(s: &mut Sink) {
         s.count("evaluations", n);
         s.count("distinct_nontrivial", n);
         s.done("wide loads whose second slot has other fields set (opcode byte, registers, offset)");
+    }
+    if s.take(g + 7) {
+        c16_print_roundtrip(s, thorough);
     }
 }
 
